@@ -82,7 +82,7 @@ func c04Gen(tier string, seed int64) []fw.Case {
 	var cs []fw.Case
 	maxLen, parts, nrand := 4, 16, 250
 	if tier == "thorough" {
-		maxLen, parts, nrand = 6, 64, 6000
+		maxLen, parts, nrand = 7, 256, 40000
 	}
 	for l := 1; l <= maxLen; l++ {
 		p := parts
